@@ -26,6 +26,9 @@ enum Case {
     ContainsArray { n: usize },
     /// both operands are windows of the same buffer (prefixes, overlapping windows, empty slices)
     ContainsAlias { n: usize },
+    /// several machine words: the same (pattern, argument) symbol pair placed at one position of two, three,
+    /// alternate or all words, or at every position (differences that cancel when words are combined carelessly)
+    ContainsMulti { n: usize },
 }
 
 fn gen(t: Tier, _seed: u64, emit: &mut dyn FnMut(Case)) {
@@ -76,6 +79,9 @@ fn gen(t: Tier, _seed: u64, emit: &mut dyn FnMut(Case)) {
     }
     for n in [1usize, 2, 3, 5, 16, 17] {
         emit(Case::ContainsAlias { n });
+    }
+    for n in [32usize, 33, 48, 64, 65, 80] {
+        emit(Case::ContainsMulti { n });
     }
 }
 
@@ -325,6 +331,41 @@ fn run(c: &Case, out: &mut Out) {
                 q[i] = base_q[i];
             }
             out.dim("len", *n as i64);
+        }
+        Case::ContainsMulti { n } => {
+            let n = *n;
+            let spw = 16usize;
+            let words = n / spw;
+            let nsym = by_set(15);
+            let base_p: Vec<Iupac> = (0..n).map(|i| if i % 3 == 0 { nsym } else { al[(i * 5) % 16] }).collect();
+            // an argument contained in the pattern everywhere: a subset of the pattern's set at every position
+            let base_q: Vec<Iupac> = base_p.iter().enumerate().map(|(i, p)| by_set(set(*p) & (0b0101 << (i % 2)) | (set(*p) & 1))).collect();
+            let mut sets: Vec<Vec<usize>> = vec![(0..n).collect()];
+            for i in [0usize, 1, spw - 1] {
+                sets.push((0..words).map(|w| w * spw + i).collect());
+                sets.push(vec![i, i + spw]);
+                if words >= 3 {
+                    sets.push(vec![i, i + 2 * spw]);
+                    sets.push(vec![i, i + spw, i + 2 * spw]);
+                }
+                if words >= 4 {
+                    sets.push(vec![i + spw, i + 3 * spw]);
+                    sets.push((0..words).step_by(2).map(|w| w * spw + i).collect());
+                }
+            }
+            for set_ in &sets {
+                for (x, y) in [(by_set(0b0011), by_set(0b0100)), (by_set(0b0001), by_set(0b1111)), (by_set(0b0110), by_set(0b0101)), (by_set(0b1111), by_set(0b0110)), (by_set(0b0101), by_set(0b0101))] {
+                    let (mut p, mut q) = (base_p.clone(), base_q.clone());
+                    for &j in set_ {
+                        p[j] = x;
+                        q[j] = y;
+                    }
+                    for (s1, s2) in [(0usize, 0usize), (3, 3), (0, 5), (15, 1)] {
+                        contains_one(&p, &q, s1, s2, out);
+                    }
+                }
+            }
+            out.dim("len", n as i64);
         }
         Case::ContainsMismatch { n, m } => {
             let nsym = by_set(15);
